@@ -55,8 +55,9 @@ def check_conservation(ctx, sd, a, chain, nd, what):
         src = M.cell(sd, p)
         if M.obj_type(src) == 'Box' and a == 'ACTUATE' and 'actuate_box' in chain:
             continue
-        if a == 'PICK_N_DROP' and 'pickndrop' in chain and held0 != '_' and M._norm_status(held0) == o and (src == 'F' or M.holdable(src)):
-            continue  # the (non-holdable) item in hand was put down on floor / swapped
+        vacated = src == 'M' and 'move_obstacles' in chain and chain.index('move_obstacles') < chain.index('pickndrop') if 'pickndrop' in chain else False
+        if a == 'PICK_N_DROP' and 'pickndrop' in chain and held0 != '_' and M._norm_status(held0) == o and (src == 'F' or M.holdable(src) or vacated):
+            continue  # the (non-holdable) item in hand was put down on floor / swapped (the floor may have been vacated by an obstacle earlier in the chain)
         ctx.fail(f'{what}: scenery {o} appeared at {p} under {a} (was {src})', {'kind': 'scenery', 'action': a})
 
 
